@@ -10,91 +10,543 @@ open RTA.Spec
 /-- monotone, growing by at most one per time unit -/
 def Lipschitz1 (f : Nat → Nat) : Prop := ∀ t, f t ≤ f (t + 1) ∧ f (t + 1) ≤ f t + 1
 
-theorem pSbf_zero (Q P : Nat) (hQ : 1 ≤ Q) (hQP : Q ≤ P) : pSbf Q P 0 = 0 := by
-  sorry
+/-! ### normal forms (helpers)
 
-theorem cSbf_zero (Q D P : Nat) (hQ : 1 ≤ Q) (hQD : Q ≤ D) (hDP : D ≤ P) : cSbf Q D P 0 = 0 := by
-  sorry
+Every `t ≥ P - Q` is `(P - Q) + P * k + m` with `m < P`, every demand is `Q * q + r` with
+`r < Q`; on these shapes the four functions have division-free closed forms, and all laws
+below become linear arithmetic over `k m q r` with the products as opaque atoms. -/
+
+theorem cSbf_lo (Q D P t : Nat) (h : t < P - Q) : cSbf Q D P t = 0 := by
+  unfold cSbf
+  simp only []
+  rw [if_pos h]
+
+theorem cSbf_nf (Q D P : Nat) (hQ : 1 ≤ Q) (hQD : Q ≤ D) (_hDP : D ≤ P) (k m : Nat)
+    (hm : m < P) :
+    cSbf Q D P ((P - Q) + P * k + m) = Q * k + min Q (m - (D - Q)) := by
+  have hP : 0 < P := by omega
+  unfold cSbf
+  simp only []
+  have h1 : ¬ (P - Q > (P - Q) + P * k + m) := by omega
+  rw [if_neg h1]
+  have h2 : ((P - Q) + P * k + m - (P - Q)) / P = k := by
+    have : (P - Q) + P * k + m - (P - Q) = P * k + m := by omega
+    rw [this, Nat.mul_add_div hP, Nat.div_eq_of_lt hm]; omega
+  rw [h2]
+  generalize P * k = pk
+  split <;> omega
+
+theorem pSbf_eq_cSbf (Q P : Nat) (hQ : 1 ≤ Q) (hQP : Q ≤ P) (t : Nat) :
+    pSbf Q P t = cSbf Q P P t := by
+  have hP : 0 < P := by omega
+  unfold pSbf cSbf
+  simp only []
+  by_cases h : P - Q > t
+  · rw [if_pos h, if_pos h]
+  · rw [if_neg h, if_neg h]
+    have hd := Nat.div_add_mod (t - (P - Q)) P
+    have hm := Nat.mod_lt (t - (P - Q)) hP
+    generalize (t - (P - Q)) / P = k at *
+    generalize (t - (P - Q)) % P = m at *
+    generalize P * k = pk at *
+    split <;> split <;> omega
+
+/-- every `t ≥ P - Q` is `(P - Q) + P * k + m` with `m < P` -/
+theorem exists_km (Q P t : Nat) (hP : 0 < P) (h : P - Q ≤ t) :
+    ∃ k m, m < P ∧ t = (P - Q) + P * k + m := by
+  refine ⟨(t - (P - Q)) / P, (t - (P - Q)) % P, Nat.mod_lt _ hP, ?_⟩
+  have hd := Nat.div_add_mod (t - (P - Q)) P
+  omega
+
+theorem exists_qr (Q d : Nat) (hQ : 0 < Q) : ∃ q r, r < Q ∧ d = Q * q + r :=
+  ⟨d / Q, d % Q, Nat.mod_lt _ hQ, (Nat.div_add_mod d Q).symm⟩
+
+theorem cSt_zero (Q D P : Nat) : cSt Q D P 0 = 0 := by
+  unfold cSt; simp
+
+theorem cSt_nf (Q D P : Nat) (q r : Nat) (hr : r < Q) (hpos : 0 < Q * q + r) :
+    cSt Q D P (Q * q + r) = D - Q + P * q + (if 0 < r then r + P - Q else 0) := by
+  have hQ : 0 < Q := by omega
+  unfold cSt
+  simp only []
+  have h1 : ¬ (Q * q + r = 0) := by omega
+  rw [if_neg h1]
+  have h2 : (Q * q + r) / Q = q := by
+    rw [Nat.mul_add_div hQ, Nat.div_eq_of_lt hr]; omega
+  rw [h2]
+  generalize Q * q = qq
+  split <;> split <;> omega
+
+theorem pSt_eq_cSt (Q P : Nat) (hQ : 1 ≤ Q) (hQP : Q ≤ P) (d : Nat) :
+    pSt Q P d = cSt Q P P d := by
+  unfold pSt cSt
+  simp only []
+  by_cases h : d = 0
+  · rw [if_pos h, if_pos h]
+  · rw [if_neg h, if_neg h]
+    have hd := Nat.div_add_mod d Q
+    have hm := Nat.mod_lt d hQ
+    generalize d / Q = q at *
+    generalize d % Q = r at *
+    generalize Q * q = qq at *
+    split <;> omega
+
+theorem cSbf_zero' (Q D P : Nat) (hQ : 1 ≤ Q) (hQD : Q ≤ D) (hDP : D ≤ P) : cSbf Q D P 0 = 0 := by
+  by_cases h : 0 < P - Q
+  · exact cSbf_lo Q D P 0 h
+  · have h := cSbf_nf Q D P hQ hQD hDP 0 0 (by omega)
+    have e : (P - Q) + P * 0 + 0 = 0 := by omega
+    rw [e] at h
+    rw [h]; omega
+
+theorem pSbf_zero (Q P : Nat) (hQ : 1 ≤ Q) (hQP : Q ≤ P) : pSbf Q P 0 = 0 := by
+  rw [pSbf_eq_cSbf Q P hQ hQP]; exact cSbf_zero' Q P P hQ hQP (Nat.le_refl _)
+
+theorem cSbf_zero (Q D P : Nat) (hQ : 1 ≤ Q) (hQD : Q ≤ D) (hDP : D ≤ P) : cSbf Q D P 0 = 0 :=
+  cSbf_zero' Q D P hQ hQD hDP
+
+theorem cSbf_lipschitz' (Q D P : Nat) (hQ : 1 ≤ Q) (hQD : Q ≤ D) (hDP : D ≤ P) :
+    Lipschitz1 (cSbf Q D P) := by
+  intro t
+  have hP : 0 < P := by omega
+  by_cases h0 : t < P - Q
+  · rw [cSbf_lo Q D P t h0]
+    by_cases h1 : t + 1 < P - Q
+    · rw [cSbf_lo Q D P _ h1]; omega
+    · have h := cSbf_nf Q D P hQ hQD hDP 0 0 hP
+      have e : (P - Q) + P * 0 + 0 = t + 1 := by omega
+      rw [e] at h
+      rw [h]; omega
+  · obtain ⟨k, m, hm, rfl⟩ := exists_km Q P t hP (by omega)
+    rw [cSbf_nf Q D P hQ hQD hDP k m hm]
+    by_cases hw : m + 1 < P
+    · have h := cSbf_nf Q D P hQ hQD hDP k (m + 1) hw
+      have e : (P - Q) + P * k + (m + 1) = (P - Q) + P * k + m + 1 := by omega
+      rw [e] at h
+      rw [h]; omega
+    · have h := cSbf_nf Q D P hQ hQD hDP (k + 1) 0 hP
+      have e : (P - Q) + P * (k + 1) + 0 = (P - Q) + P * k + m + 1 := by
+        rw [Nat.mul_add]; omega
+      rw [e] at h
+      rw [h, Nat.mul_add]; omega
 
 theorem pSbf_lipschitz (Q P : Nat) (hQ : 1 ≤ Q) (hQP : Q ≤ P) : Lipschitz1 (pSbf Q P) := by
-  sorry
+  intro t
+  rw [pSbf_eq_cSbf Q P hQ hQP, pSbf_eq_cSbf Q P hQ hQP]
+  exact cSbf_lipschitz' Q P P hQ hQP (Nat.le_refl _) t
 
 theorem cSbf_lipschitz (Q D P : Nat) (hQ : 1 ≤ Q) (hQD : Q ≤ D) (hDP : D ≤ P) :
-    Lipschitz1 (cSbf Q D P) := by
-  sorry
+    Lipschitz1 (cSbf Q D P) :=
+  cSbf_lipschitz' Q D P hQ hQD hDP
 
 theorem lipschitz_mono {f : Nat → Nat} (h : Lipschitz1 f) : Mono f := by
-  sorry
+  intro a b hab
+  obtain ⟨e, rfl⟩ := Nat.exists_eq_add_of_le hab
+  induction e with
+  | zero => exact Nat.le_refl _
+  | succ e ih => exact Nat.le_trans (ih (by omega)) (h (a + e)).1
+
+theorem lipschitz_add {f : Nat → Nat} (h : Lipschitz1 f) (t j : Nat) : f (t + j) ≤ f t + j := by
+  induction j with
+  | zero => exact Nat.le_refl _
+  | succ j ih =>
+    have := (h (t + j)).2
+    rw [← Nat.add_assoc]; omega
 
 /-- a constrained reservation with deadline = period is the periodic one -/
 theorem cSbf_eq_pSbf (Q P : Nat) (hQ : 1 ≤ Q) (hQP : Q ≤ P) (t : Nat) :
-    cSbf Q P P t = pSbf Q P t := by
-  sorry
+    cSbf Q P P t = pSbf Q P t :=
+  (pSbf_eq_cSbf Q P hQ hQP t).symm
 
 theorem cSt_eq_pSt (Q P : Nat) (hQ : 1 ≤ Q) (hQP : Q ≤ P) (d : Nat) :
-    cSt Q P P d = pSt Q P d := by
-  sorry
+    cSt Q P P d = pSt Q P d :=
+  (pSt_eq_cSt Q P hQ hQP d).symm
 
 /-- budget = period is a dedicated processor -/
 theorem pSbf_full (P : Nat) (hP : 1 ≤ P) (t : Nat) : pSbf P P t = t := by
-  sorry
+  rw [pSbf_eq_cSbf P P hP (Nat.le_refl _)]
+  obtain ⟨k, m, hm, rfl⟩ := exists_km P P t hP (by omega)
+  rw [cSbf_nf P P P hP (Nat.le_refl _) (Nat.le_refl _) k m hm]
+  omega
 
 theorem pSt_full (P : Nat) (hP : 1 ≤ P) (d : Nat) : pSt P P d = d := by
-  sorry
+  rw [pSt_eq_cSt P P hP (Nat.le_refl _)]
+  by_cases hd : d = 0
+  · subst hd; exact cSt_zero _ _ _
+  obtain ⟨q, r, hr, rfl⟩ := exists_qr P d hP
+  rw [cSt_nf P P P q r hr (by omega)]
+  split <;> omega
+
+theorem cGalois' (Q D P : Nat) (hQ : 1 ≤ Q) (hQD : Q ≤ D) (hDP : D ≤ P) :
+    Galois (cSbf Q D P) (cSt Q D P) := by
+  intro d t
+  have hP : 0 < P := by omega
+  by_cases hd : d = 0
+  · subst hd; rw [cSt_zero]; omega
+  obtain ⟨q, r, hr, rfl⟩ := exists_qr Q d hQ
+  rw [cSt_nf Q D P q r hr (by omega)]
+  by_cases h0 : t < P - Q
+  · rw [cSbf_lo Q D P t h0]
+    rcases Nat.eq_zero_or_pos q with rfl | hq
+    · split <;> omega
+    · obtain ⟨q, rfl⟩ := Nat.exists_eq_add_of_le hq
+      rw [Nat.mul_add, Nat.mul_add]
+      generalize P * q = pq
+      generalize Q * q = qq
+      split <;> omega
+  · obtain ⟨k, m, hm, rfl⟩ := exists_km Q P t hP (by omega)
+    rw [cSbf_nf Q D P hQ hQD hDP k m hm]
+    rcases Nat.lt_trichotomy q k with hlt | rfl | hgt
+    · obtain ⟨e, rfl⟩ := Nat.exists_eq_add_of_lt hlt
+      simp only [Nat.mul_add, Nat.mul_one]
+      generalize P * q = pq
+      generalize Q * q = qq
+      generalize P * e = pe
+      generalize Q * e = qe
+      split <;> omega
+    · generalize P * q = pq
+      generalize Q * q = qq
+      split <;> omega
+    · obtain ⟨e, rfl⟩ := Nat.exists_eq_add_of_lt hgt
+      rcases Nat.eq_zero_or_pos e with rfl | he
+      · simp only [Nat.mul_add, Nat.mul_one, Nat.add_zero]
+        generalize P * k = pq
+        generalize Q * k = qq
+        split <;> omega
+      · obtain ⟨e, rfl⟩ := Nat.exists_eq_add_of_le he
+        simp only [Nat.mul_add, Nat.mul_one]
+        generalize P * k = pq
+        generalize Q * k = qq
+        generalize P * e = pe
+        generalize Q * e = qe
+        split <;> omega
 
 /-- `service_time` is the exact inverse (Galois connection) of `provided_service` -/
 theorem cGalois (Q D P : Nat) (hQ : 1 ≤ Q) (hQD : Q ≤ D) (hDP : D ≤ P) :
-    Galois (cSbf Q D P) (cSt Q D P) := by
-  sorry
+    Galois (cSbf Q D P) (cSt Q D P) :=
+  cGalois' Q D P hQ hQD hDP
 
 theorem pGalois (Q P : Nat) (hQ : 1 ≤ Q) (hQP : Q ≤ P) : Galois (pSbf Q P) (pSt Q P) := by
-  sorry
+  intro d t
+  rw [pSbf_eq_cSbf Q P hQ hQP, pSt_eq_cSt Q P hQ hQP]
+  exact cGalois' Q P P hQ hQP (Nat.le_refl _) d t
+
+theorem defaultLoop_aux (sbf st : Nat → Nat) (hl : Lipschitz1 sbf)
+    (hg : Galois sbf st) (demand : Nat) :
+    ∀ n t, st demand - t ≤ n → t ≤ st demand →
+      defaultLoop sbf demand (st demand) t = some (st demand) := by
+  intro n
+  induction n with
+  | zero =>
+    intro t hn ht
+    have e : t = st demand := by omega
+    have h1 : demand ≤ sbf t := by rw [e]; exact (hg _ _).1 (Nat.le_refl _)
+    unfold defaultLoop
+    rw [if_pos h1, e]
+  | succ n ih =>
+    intro t hn ht
+    unfold defaultLoop
+    by_cases h1 : sbf t ≥ demand
+    · rw [if_pos h1]
+      have := (hg demand t).2 h1
+      have e : t = st demand := by omega
+      rw [e]
+    · rw [if_neg h1]
+      have hlt : t < st demand := by
+        rcases Nat.lt_or_ge t (st demand) with h | h
+        · exact h
+        · exact absurd ((hg demand t).1 h) h1
+      have h2 : ¬ t ≥ st demand := by omega
+      rw [if_neg h2]
+      have hj : t + (demand - sbf t) ≤ st demand := by
+        have hb := lipschitz_add hl t (demand - sbf t - 1)
+        have hnot : ¬ st demand ≤ t + (demand - sbf t - 1) := by
+          intro hc
+          have := (hg demand _).1 hc
+          omega
+        omega
+      exact ih _ (by omega) hj
 
 /-- The default `service_time` loop started at `t ≤ st demand` returns the exact
 inverse, for every 1-Lipschitz `sbf` with `sbf 0 = 0` whose inverse is `st`. -/
 theorem defaultLoop_spec (sbf st : Nat → Nat) (h0 : sbf 0 = 0) (hl : Lipschitz1 sbf)
     (hg : Galois sbf st) (demand : Nat) :
     defaultLoop sbf demand (st demand) demand = some (st demand) := by
-  sorry
+  apply defaultLoop_aux sbf st hl hg demand (st demand - demand) demand (Nat.le_refl _)
+  rcases Nat.eq_zero_or_pos demand with h | h
+  · omega
+  · have hb := lipschitz_add hl 0 (demand - 1)
+    rw [h0] at hb
+    have hnot : ¬ st demand ≤ 0 + (demand - 1) := by
+      intro hc
+      have := (hg demand _).1 hc
+      omega
+    omega
+
+theorem dedicated_lipschitz : Lipschitz1 (fun d : Nat => d) := by
+  intro t; show t ≤ t + 1 ∧ t + 1 ≤ t + 1; omega
 
 /-- every well-formed supply: sbf laws -/
 theorem Supply.sbf_zero (s : Supply) (h : s.WF) : s.sbf 0 = 0 := by
-  sorry
+  induction s with
+  | dedicated => rfl
+  | periodic Q P =>
+    obtain ⟨h1, h2⟩ := h
+    show pSbf Q P 0 = 0
+    rw [pSbf_eq_cSbf Q P h1 h2]; exact cSbf_zero' Q P P h1 h2 (Nat.le_refl _)
+  | constrained Q D P =>
+    obtain ⟨h1, h2, h3⟩ := h
+    exact cSbf_zero' Q D P h1 h2 h3
+  | viaDefault s ih => exact ih h
 
 theorem Supply.sbf_lipschitz (s : Supply) (h : s.WF) : Lipschitz1 s.sbf := by
-  sorry
+  induction s with
+  | dedicated => exact dedicated_lipschitz
+  | periodic Q P =>
+    obtain ⟨h1, h2⟩ := h
+    exact pSbf_lipschitz Q P h1 h2
+  | constrained Q D P =>
+    obtain ⟨h1, h2, h3⟩ := h
+    exact cSbf_lipschitz' Q D P h1 h2 h3
+  | viaDefault s ih => exact ih h
 
 theorem Supply.galois (s : Supply) (h : s.WF) : Galois s.sbf s.stClosed := by
-  sorry
+  induction s with
+  | dedicated => intro d t; exact Iff.rfl
+  | periodic Q P =>
+    obtain ⟨h1, h2⟩ := h
+    exact pGalois Q P h1 h2
+  | constrained Q D P =>
+    obtain ⟨h1, h2, h3⟩ := h
+    exact cGalois' Q D P h1 h2 h3
+  | viaDefault s ih => exact ih h
 
 /-- the modelled `service_time` (specialised or default implementation) never runs away
 and equals the exact inverse -/
 theorem Supply.st?_eq (s : Supply) (h : s.WF) (d : Nat) : s.st? d = some (s.stClosed d) := by
-  sorry
+  cases s with
+  | dedicated => rfl
+  | periodic Q P => rfl
+  | constrained Q D P => rfl
+  | viaDefault s =>
+    exact defaultLoop_spec s.sbf s.stClosed (Supply.sbf_zero s h) (Supply.sbf_lipschitz s h)
+      (Supply.galois s h) d
 
 /-! ### exactness against budget placements -/
 
 theorem service_le_len (σ : Nat → Bool) (s len : Nat) : service σ s len ≤ len := by
-  sorry
+  induction len with
+  | zero => exact Nat.le_refl _
+  | succ n ih =>
+    show service σ s n + (if σ (s + n) then 1 else 0) ≤ n + 1
+    split <;> omega
 
 theorem service_add (σ : Nat → Bool) (s a b : Nat) :
     service σ s (a + b) = service σ s a + service σ (s + a) b := by
-  sorry
+  induction b with
+  | zero => rfl
+  | succ n ih =>
+    show service σ s (a + n) + (if σ (s + (a + n)) then 1 else 0)
+      = service σ s a + (service σ (s + a) n + (if σ (s + a + n) then 1 else 0))
+    rw [ih, Nat.add_assoc s a n]; omega
+
+theorem service_mono (σ : Nat → Bool) (s a b : Nat) (h : a ≤ b) :
+    service σ s a ≤ service σ s b := by
+  obtain ⟨e, rfl⟩ := Nat.exists_eq_add_of_le h
+  rw [service_add]; omega
+
+/-- inside period `k`, the window `[a, a + w)` misses at most `a` slots at the start and
+`D - (a + w)` slots at the end of the region `[0, D)` holding the budget -/
+theorem compliant_inner (Q D P : Nat) (σ : Nat → Bool) (hσ : Compliant Q D P σ) (k a w : Nat) :
+    Q ≤ a + service σ (k * P + a) w + (D - (a + w)) := by
+  have h := hσ k
+  have ha := service_le_len σ (k * P) a
+  by_cases hb : a + w ≤ D
+  · have h2 : service σ (k * P) (a + w + (D - (a + w)))
+        = service σ (k * P) a + service σ (k * P + a) w
+          + service σ (k * P + (a + w)) (D - (a + w)) := by
+      rw [service_add, service_add]
+    have e : a + w + (D - (a + w)) = D := by omega
+    rw [e] at h2
+    have hc := service_le_len σ (k * P + (a + w)) (D - (a + w))
+    omega
+  · have h2 := service_mono σ (k * P) D (a + w) (by omega)
+    rw [service_add] at h2
+    omega
+
+theorem compliant_full (Q D P : Nat) (hDP : D ≤ P) (σ : Nat → Bool) (hσ : Compliant Q D P σ)
+    (k m : Nat) : Q * m ≤ service σ (k * P) (P * m) := by
+  induction m with
+  | zero => exact Nat.zero_le _
+  | succ m ih =>
+    rw [Nat.mul_succ, Nat.mul_succ, service_add]
+    have e : k * P + P * m = (k + m) * P := by rw [Nat.add_mul, Nat.mul_comm m P]
+    rw [e]
+    have h1 := hσ (k + m)
+    have h2 := service_mono σ ((k + m) * P) D P hDP
+    omega
+
+theorem compliant_window (Q D P : Nat) (hDP : D ≤ P) (σ : Nat → Bool)
+    (hσ : Compliant Q D P σ) (k g m l : Nat) (hg : g ≤ P) :
+    (Q - (P - g)) + Q * m + (Q - (D - l)) ≤ service σ (k * P + (P - g)) (g + P * m + l) := by
+  rw [service_add, service_add]
+  have e1 : k * P + (P - g) + g = (k + 1) * P := by rw [Nat.add_mul, Nat.one_mul]; omega
+  have e2 : k * P + (P - g) + (g + P * m) = (k + 1 + m) * P := by
+    rw [← Nat.add_assoc, e1, Nat.add_mul (k + 1) m P, Nat.mul_comm m P]
+  rw [e1, e2]
+  have h1 := compliant_inner Q D P σ hσ k (P - g) g
+  have h2 := compliant_full Q D P hDP σ hσ (k + 1) m
+  have h3 := compliant_inner Q D P σ hσ (k + 1 + m) 0 l
+  rw [Nat.add_zero] at h3
+  omega
+
+theorem cSt_served (Q D P : Nat) (hQ : 1 ≤ Q) (hQD : Q ≤ D) (hDP : D ≤ P)
+    (σ : Nat → Bool) (hσ : Compliant Q D P σ) (s d : Nat) :
+    d ≤ service σ s (cSt Q D P d) := by
+  have hP : 0 < P := by omega
+  by_cases hd : d = 0
+  · omega
+  obtain ⟨q, r, hr, rfl⟩ := exists_qr Q d hQ
+  rw [cSt_nf Q D P q r hr (by omega)]
+  have hs := Nat.div_add_mod s P
+  have ha := Nat.mod_lt s hP
+  generalize s / P = k at hs
+  generalize s % P = a at hs ha
+  subst hs
+  rw [Nat.mul_comm P k]
+  have hw : ∀ m l, (Q - a) + Q * m + (Q - (D - l))
+      ≤ service σ (k * P + a) (P - a + P * m + l) := by
+    intro m l
+    have h := compliant_window Q D P hDP σ hσ k (P - a) m l (by omega)
+    have ea : P - (P - a) = a := by omega
+    rw [ea] at h
+    exact h
+  by_cases hr0 : r = 0
+  · subst hr0
+    have hq : 1 ≤ q := by
+      rcases Nat.eq_zero_or_pos q with rfl | h
+      · omega
+      · exact h
+    obtain ⟨q, rfl⟩ := Nat.exists_eq_add_of_le hq
+    rw [if_neg (Nat.lt_irrefl 0)]
+    refine Nat.le_trans ?_ (service_mono σ _ (P - a + P * q + (D - Q + a)) _ ?_)
+    · have h := hw q (D - Q + a)
+      rw [Nat.mul_add]
+      omega
+    · rw [Nat.mul_add]; omega
+  · rw [if_pos (by omega)]
+    by_cases c1 : 2 * Q + P ≤ D + r + a
+    · refine Nat.le_trans ?_ (service_mono σ _ (P - a + P * (q + 1) + 0) _ ?_)
+      · have h := hw (q + 1) 0
+        rw [Nat.mul_add] at h
+        omega
+      · rw [Nat.mul_add]; omega
+    · by_cases c2 : 2 * Q ≤ D + r + a
+      · refine Nat.le_trans ?_ (service_mono σ _ (P - a + P * q + (D + r + a - 2 * Q)) _ ?_)
+        · have h := hw q (D + r + a - 2 * Q)
+          omega
+        · omega
+      · rcases Nat.eq_zero_or_pos q with rfl | hq
+        · have h := compliant_inner Q D P σ hσ k a (D - Q + P * 0 + (r + P - Q))
+          omega
+        · obtain ⟨q, rfl⟩ := Nat.exists_eq_add_of_le hq
+          refine Nat.le_trans ?_
+            (service_mono σ _ (P - a + P * q + (P + D + r + a - 2 * Q)) _ ?_)
+          · have h := hw q (P + D + r + a - 2 * Q)
+            rw [Nat.mul_add]
+            omega
+          · rw [Nat.mul_add]; omega
 
 /-- soundness: no compliant process delivers less than `provided_service` in any window -/
 theorem cSbf_sound (Q D P : Nat) (hQ : 1 ≤ Q) (hQD : Q ≤ D) (hDP : D ≤ P)
     (σ : Nat → Bool) (hσ : Compliant Q D P σ) (s Δ : Nat) :
     cSbf Q D P Δ ≤ service σ s Δ := by
-  sorry
+  have h1 := cSt_served Q D P hQ hQD hDP σ hσ s (cSbf Q D P Δ)
+  have h2 := (cGalois' Q D P hQ hQD hDP (cSbf Q D P Δ) Δ).2 (Nat.le_refl _)
+  exact Nat.le_trans h1 (service_mono σ s _ _ h2)
+
+theorem worst_lo (Q D P t : Nat) (h : t < P) : worst Q D P t = decide (t < Q) := by
+  unfold worst; rw [if_pos h]
+
+theorem worst_hi (Q D P k x : Nat) (hk : 1 ≤ k) (hx : x < P) :
+    worst Q D P (k * P + x) = decide (D - Q ≤ x ∧ x < D) := by
+  unfold worst
+  have h1 : ¬ (k * P + x < P) := by
+    obtain ⟨k, rfl⟩ := Nat.exists_eq_add_of_le hk
+    rw [Nat.add_mul, Nat.one_mul]; omega
+  rw [if_neg h1, Nat.mul_add_mod_self_right, Nat.mod_eq_of_lt hx]
+
+theorem service_all_true (σ : Nat → Bool) (s n : Nat) (h : ∀ i, i < n → σ (s + i) = true) :
+    service σ s n = n := by
+  induction n with
+  | zero => rfl
+  | succ n ih =>
+    show service σ s n + (if σ (s + n) then 1 else 0) = n + 1
+    rw [ih (fun i hi => h i (by omega)), h n (by omega), if_pos rfl]
+
+theorem service_ge_of_true (σ : Nat → Bool) (s a n len : Nat)
+    (h : ∀ i, i < n → σ (s + a + i) = true) (hlen : a + n ≤ len) : n ≤ service σ s len := by
+  have h1 := service_mono σ s (a + n) len hlen
+  rw [service_add, service_all_true σ (s + a) n h] at h1
+  omega
 
 theorem worst_compliant (Q D P : Nat) (hQ : 1 ≤ Q) (hQD : Q ≤ D) (hDP : D ≤ P) :
     Compliant Q D P (worst Q D P) := by
-  sorry
+  have _ := hQ
+  intro k
+  rcases Nat.eq_zero_or_pos k with rfl | hk
+  · apply service_ge_of_true _ _ 0 Q D _ (by omega)
+    intro i hi
+    rw [worst_lo Q D P _ (by omega)]
+    exact decide_eq_true (by omega)
+  · apply service_ge_of_true _ _ (D - Q) Q D _ (by omega)
+    intro i hi
+    rw [Nat.add_assoc, worst_hi Q D P k _ hk (by omega)]
+    exact decide_eq_true ⟨by omega, by omega⟩
+
+theorem cSbf_succ (Q D P : Nat) (hQ : 1 ≤ Q) (hQD : Q ≤ D) (hDP : D ≤ P) (t : Nat) :
+    cSbf Q D P (t + 1) = cSbf Q D P t + (if worst Q D P (Q + t) then 1 else 0) := by
+  have hP : 0 < P := by omega
+  by_cases h0 : t < P - Q
+  · have hwv : worst Q D P (Q + t) = false := by
+      rw [worst_lo Q D P _ (by omega)]
+      exact decide_eq_false (by omega)
+    rw [hwv, cSbf_lo Q D P t h0, if_neg (by decide)]
+    by_cases h1 : t + 1 < P - Q
+    · rw [cSbf_lo Q D P _ h1]
+    · have h := cSbf_nf Q D P hQ hQD hDP 0 0 hP
+      have e : (P - Q) + P * 0 + 0 = t + 1 := by omega
+      rw [e] at h
+      rw [h]; omega
+  · obtain ⟨k, m, hm, rfl⟩ := exists_km Q P t hP (by omega)
+    have e : Q + ((P - Q) + P * k + m) = (k + 1) * P + m := by
+      rw [Nat.add_mul, Nat.one_mul, Nat.mul_comm k P]; omega
+    rw [e, worst_hi Q D P (k + 1) m (by omega) hm, cSbf_nf Q D P hQ hQD hDP k m hm]
+    by_cases hw : m + 1 < P
+    · have h := cSbf_nf Q D P hQ hQD hDP k (m + 1) hw
+      have e : (P - Q) + P * k + (m + 1) = (P - Q) + P * k + m + 1 := by omega
+      rw [e] at h
+      rw [h]
+      by_cases hc : D - Q ≤ m ∧ m < D
+      · rw [decide_eq_true hc, if_pos rfl]; omega
+      · rw [decide_eq_false hc, if_neg (by decide)]; omega
+    · have h := cSbf_nf Q D P hQ hQD hDP (k + 1) 0 hP
+      have e : (P - Q) + P * (k + 1) + 0 = (P - Q) + P * k + m + 1 := by
+        rw [Nat.mul_add]; omega
+      rw [e] at h
+      rw [h, Nat.mul_add]
+      by_cases hc : D - Q ≤ m ∧ m < D
+      · rw [decide_eq_true hc, if_pos rfl]; omega
+      · rw [decide_eq_false hc, if_neg (by decide)]; omega
 
 /-- attainment: the adversarial process delivers exactly `provided_service` in the
 window starting right after its first budget -/
 theorem cSbf_attained (Q D P : Nat) (hQ : 1 ≤ Q) (hQD : Q ≤ D) (hDP : D ≤ P) (Δ : Nat) :
     service (worst Q D P) Q Δ = cSbf Q D P Δ := by
-  sorry
+  induction Δ with
+  | zero => rw [cSbf_zero' Q D P hQ hQD hDP]; rfl
+  | succ n ih =>
+    rw [cSbf_succ Q D P hQ hQD hDP n, ← ih]
+    rfl
 
 end RTA
